@@ -128,6 +128,91 @@ CHECKS = {
         "Random sparse revsets over generated DAGs go through iter_graph (with and without transitive-edge skipping), the stream variant, TopoGroupedGraph and reverse_graph; nodes are the revset in global order before their ancestors; direct edge => shown parent; indirect => shown ancestor reachable only through unshown commits; missing => target not shown; the closure of edges equals ancestry among shown nodes and is unchanged by transitive-edge skipping.",
         "A direct parent labelled 'indirect' would be accepted (the statement does not forbid it).",
     ),
+    "C06": (
+        "runtime monitor: update_from_content / checkout+snapshot identity on generated file conflicts, edits confined to resolved regions",
+        "Generated Merge<Option<FileId>> conflicts (3-11 terms, redundant pairs, absent terms, exec-bit differences, marker look-alikes, CRLF) are materialized exactly as checkout does and parsed back with update_from_content: the unedited bytes must give back the input ids including arity; at working-copy level a conflicted tree is checked out and snapshotted (also after forcing re-reads): identical tree ids; edits inside resolved regions must be applied to every side.",
+        "After an edit the working-copy level re-runs resolve(), so terms that became equal may cancel (accepted, meaning unchanged); function level restricted to >=2 simplified sides.",
+    ),
+    "C21": (
+        "runtime history monitor: marker-key happens-before checker over saves from several TableStore instances, free-running and controlled interleavings",
+        "2-4 TableStore instances on one directory save random keys plus a unique marker per save from fresh, stale and locked heads, sequentially, free-running with seeded yields at the hook points, and under controlled interleavings at the table.* / lock hook points, with working flock and with locks disabled; offline checker: every load contains the saves completed before it, values come from a save that is maximal under happens-before, saved tables equal base plus entries across squashes, lookups identical after reload and equal to an independent parse of the segment files, a final fresh load holds every completed save.",
+        "Lost-save clauses carry the lock discipline in their signature. One defect repaired (merged head removed), one recorded as known finding (ancestor values overriding newer ones after a squash).",
+    ),
+    "C22": (
+        "runtime differential monitor: tree-model diff vs changed-path index and files() revsets in every build form",
+        "Random histories with merges (resolved, auto-merged and conflicted merge trees), index enabled late, built incrementally with small limits, extended, merged from concurrent operations (also enabled on one side only), rebuilt from scratch, reloaded; changed_paths_in_commit must equal the paths whose value differs between the commit and the merge of its parents, files() revsets must return the same commits as a brute-force scan.",
+        "Unindexed commits (None) are legitimate and counted. Known finding: unsimplified parent conflicts reported as changed.",
+    ),
+    "C23": (
+        "runtime differential monitor: disk model + edit script vs snapshot tree read back from the store, forced timestamps",
+        "Seeded edit scripts (create, overwrite, same-size rewrite, chmod, valid and dangling symlinks, delete, file<->directory swaps, root and nested .gitignore in restricted forms) are applied to a real workspace and to a model; mtimes come from a logical clock; after each of 3-6 snapshots (fresh Workspace::load each time) the tree must contain exactly the paths that were tracked or are unignored, auto-tracked and small enough, with disk content, exec bit and link target.",
+        "Library API (the CLI calls the same snapshot); restricted .gitignore forms whose semantics are certain (C28 covers the pattern language). A genuine defect found here was repaired (fix: ENOTDIR).",
+    ),
+    "C24": (
+        "runtime monitor: disk == tree, snapshot identity and path independence over checkout sequences",
+        "2-6 checkouts per workspace between generated trees (files, executables, symlinks, file<->directory replacements, 40% conflicted merges) under every eol x exec-bit x marker-style policy: disk equals the tree's leaves (through an own EOL reference), a snapshot from a fresh load returns identical tree ids (also after forcing re-reads) and writes nothing, and the disk equals a from-scratch checkout of the same tree.",
+        "Conflicted trees are produced by MergedTree::merge (snapshot re-runs resolve()); exec bit not compared under exec-bit-change=ignore; conflict file contents are C06's business.",
+    ),
+    "C25": (
+        "runtime monitor: planted foreign files and outside directories must be byte-identical after checkout",
+        "Before a checkout from A to B, untracked files and directories, ignored files, local edits of tracked files untouched by the update, symlinks to outside files and symlinked directories pointing outside the workspace are planted where B wants files/directories; every planted entry and the outside directory must be unchanged, blocked paths are skipped (stats.skipped_files) not overwritten, checkout returns Ok.",
+        "strace audit of thorough tier not built. Known finding: unsorted placeholder states (debug assertion) when a tracked directory was replaced on disk.",
+    ),
+    "C26": (
+        "runtime monitor with forced timestamps: exhaustive enumeration of (t_write <= t_save <= t_edit) placements per granularity",
+        "For granularities 1 ms, 10 ms, 1 s, 2 s (and an unfloored 250 us step) every triple in the window is forced with utimensat on the file and on the tree_state file exactly as the clean check reads them, a same-size in-place edit follows, and a snapshot from a fresh load must contain the new content; new and previously tracked files; plus a free-running same-millisecond workload.",
+        "exhaustive is set only when all 840 placements ran; wall-clock never decides.",
+    ),
+    "C27": (
+        "runtime monitor: tree unchanged and disk delta == pattern delta over random sparse pattern sequences",
+        "Random trees and 6-14 steps of set_sparse_patterns (empty, root, nested, overlapping, non-existent prefixes), edits inside/outside the patterns and snapshots; after a pattern change the tree id is unchanged, leaving files are removed, entering files written (obstructed ones skipped and left intact), everything else byte-identical, stats match; a snapshot never changes a tree path outside the patterns.",
+        "added_files accepted with or without the skipped count (the code carries a TODO about it).",
+    ),
+    "C28": (
+        "runtime differential monitor: jj's ignore chain (as the snapshot walker uses it) vs git check-ignore on materialized trees",
+        "Random stacks of ignore files (core.excludesFile, info/exclude, root and nested .gitignore; negation, anchoring, directory-only, globstar, brackets, POSIX classes, escapes, trailing spaces, comments, CRLF, BOM) over random trees are materialized; one git check-ignore --no-index per tree is the reference; mismatches are minimised to one or two lines and reported per pattern class; a tenth of the cases also compare a real snapshot with git ls-files.",
+        "Reference is git 2.39. Two divergences inside the gix-ignore dependency are recorded as known findings.",
+    ),
+    "C29": (
+        "runtime differential monitor: own EOL classifier/converter vs checkout + snapshot under each conversion mode",
+        "Contents around the 8 KiB probe boundary (LF/CR/NUL/CRLF at offsets 8186-8197, CRLF images straddling the boundary) and small LF/CRLF/mixed/binary files are checked out and snapshotted under none/input/input-output: verbatim where required, LF-only text becomes its CRLF image and snapshots back to the stored bytes, binary passes through unchanged.",
+        "A lone CR exactly at offset 8191 is ambiguous between jj's probe and the statement: either disk image accepted, round trip still required.",
+    ),
+    "C35": (
+        "runtime monitor: format -> parse identity for revset, fileset and template string/symbol forms",
+        "100k hostile unicode strings (quotes, backslashes, controls, NUL, @, operators, combining/wide/astral characters): format_string/format_symbol/format_remote_symbol parse back through revset::parse to exactly the same string / symbol / name@remote; escape_string parses back as a template string literal and as a fileset string.",
+        "fileset_parser is private, so the fileset string is observed as a single path component (/ replaced).",
+    ),
+    "C36": (
+        "runtime crash monitor: every parse in a worker subprocess on an 8 MiB thread, outcome classification",
+        "Random bytes, operator soup, 1110 expressions harvested from the docs and default config, token-level mutations, grammar-generated expressions and random alias maps (recursive, overloaded, shadowing) are parsed by the revset, fileset and template parsers inside worker subprocesses; nesting sweeps up to 16384 (thorough 100000) levels for 26 construct classes; panics, aborts and stack overflows are violations, slowness (CPU-time watchdog) is counted and excluded.",
+        "18 stack-overflow classes (no recursion limit in the parsers) are recorded as known findings keyed by parser and construct; any other crash is reported.",
+    ),
+    "C37": (
+        "runtime monitor: exhaustive monotone bad sets on small ranges + random large, minimal-bad-set oracle",
+        "The real Bisector on generated chains and DAGs: every descendant-closed bad set for every range of <= 10 commits (exhaustive), random monotone bad sets up to 200 commits, with and without skip answers; without skips the result must be exactly the earliest bad commits, no commit asked twice or outside the range, <= floor(log2 n)+2 steps on chains; with skips never a wrong result.",
+        "Known finding: one of several earliest bad commits that share a descendant is not reported.",
+    ),
+    "C38": (
+        "runtime monitor: unique-line ground truth vs annotate over generated histories with merges",
+        "Histories of one file whose lines carry unique ids (plus a duplicate-line variant) are annotated from random commits and domains: text equals the file, each origin is an ancestor-or-self holding that line at that number and inside the domain; for upward-closed domains the origin must be the introducing commit and never a line carried over from a searched parent.",
+        "Introducer clause only for upward-closed domains; one defect repaired (fix: omitted parent counted once), one recorded as known finding (merge blamed when the introducer is reachable via two parents).",
+    ),
+    "C43": (
+        "runtime monitor: path confinement + copy/move model over random config-id contents and repo directory operations",
+        "Random sequences of repo create / config-id writes (30+ malformed forms) / cp -r / read-only copy / rename / delete followed by load_config / maybe_load_config: the returned path is lexically <root>/<20 hex>/config.toml, nothing outside the config root and the repo dir changes, a writable copy with the original present gets a different directory with identical content while the original's stays byte-identical, a move keeps its directory, no two live writable repos share a file.",
+        "A malformed id must never select an existing config (error or fresh config both accepted).",
+    ),
+    "C44": (
+        "runtime monitor: width / UTF-8 / identity clauses for every width-taking function of text_util",
+        "150k random unicode strings (wide, combining, control, emoji sequences) through elide_start/end, write_truncated_start/end, write_padded_*, wrap_bytes, write_wrapped with random widths and ellipses: output width <= requested unless one character is wider, prefix/suffix + ellipsis structure, valid UTF-8, fitting text unchanged, exact fill, wrapped content preserved.",
+        "A width clause is reported only if it fails under both readings of width (per-character sum and str::width()). Three genuine defects recorded as known findings.",
+    ),
+    "C46": (
+        "runtime history monitor: recorded (new -> predecessors) edges per operation vs walk_predecessors",
+        "Library-level histories of describe/rebase/squash/split/abandon-like rewrites over many operations with concurrent operations merged by reload_at_head, stale transactions and op-restore style view resets; every edge is logged by the harness; walk_predecessors must terminate within a bound, list no commit twice, contain the full transitive predecessor closure recorded in ancestor operations and list every entry after all entries it is a predecessor of.",
+        "Legacy operations without recorded predecessors are not generated.",
+    ),
 }
 
 LEVEL = {"C15": "fault_enumeration"}
